@@ -56,12 +56,14 @@ type LValue struct {
 
 // State maps component keys to their current SMT term.
 type State struct {
-	m map[string]string
+	m    map[string]string
+	bind *[]string // binding mode (opaque function bodies): components read are recorded here
 }
 
 func newState() *State { return &State{m: map[string]string{}} }
 func (s *State) clone() *State {
 	n := newState()
+	n.bind = s.bind
 	for k, v := range s.m {
 		n.m[k] = v
 	}
